@@ -934,6 +934,34 @@ class Generator:
                 pre = body
             elif sec["cmd"] == "body-end":
                 post = body
+            elif sec["cmd"] in ("loop", "loop-start", "loop-end"):
+                # loops inside the slice, numbered in source order
+                sl_loops = []
+                q = lo
+                while q < hi:
+                    if s[q].kind == IDENT and s[q].text in ("while", "loop", "for") and not src.is_p(q - 1, "."):
+                        j2 = q + 1
+                        while j2 < hi and not src.is_p(j2, "{"):
+                            j2 = src.skip_group(j2) if s[j2].text in "([" else j2 + 1
+                        if j2 < hi:
+                            sl_loops.append((q, j2, src.match[j2]))
+                    q += 1
+                am = re.match(r"(\d+)(?:\s+iter=(\w+))?", sec["arg"])
+                n = int(am.group(1))
+                if n < 1 or n > len(sl_loops):
+                    raise LostAnchor("%s: slice %s has %d loops, directive names loop %d" % (file, name, len(sl_loops), n))
+                kw, lo_, hi_ = sl_loops[n - 1]
+                if sec["cmd"] == "loop":
+                    if am.group(2):
+                        q = kw + 1
+                        while q < lo_ and not src.is_id(q, "in"):
+                            q = src.skip_group(q) if s[q].text in "([" else q + 1
+                        ed.insert(s[q].end, " %s:" % am.group(2), 1)
+                    ed.insert(s[lo_].start, "\n" + body + "\n", 1)
+                elif sec["cmd"] == "loop-start":
+                    ed.insert(s[lo_].end, "\n" + body + "\n", 1)
+                else:
+                    ed.insert(s[hi_].start, "\n" + body + "\n", 1)
             elif sec["cmd"] in ("before", "after"):
                 am = re.match(r"/(.*)/\s*$", sec["arg"])
                 rx = re.compile(am.group(1))
